@@ -36,6 +36,9 @@ def check(rep, model, tier):
         else:
             changed = sorted(k for k in set(others) | set(dict(S[1])) if others.get(k) != dict(S[1]).get(k))
             rep.violation('KEEP-COLS', 'detect_bursts_cycles', site, expected='input columns unchanged', found=f'changed/added/removed: {changed}')
+    from . import common
+    rep.rule('EFF-ROVIEW', 'the labelling never writes into a read-only array view of a pandas object (would raise for every table under pandas >= 3)')
+    common.roview(rep, model, ['detect_bursts_cycles', 'check_min_burst_cycles'])
     route(rep, model)
     default_keys(rep, model)
     rep.floor('rule instances', len(rep.instances), 8)
@@ -72,8 +75,9 @@ def route(rep, model, method='cycles', detector='detect_bursts_cycles', rule='RO
             rep.ok(rule, inst + ':table', site, found=T.brief(tbl, 120))
         else:
             rep.violation(rule, inst + ':table', site, expected=f'concat of burst and shape features ({sorted(need)})', found=T.brief(tbl, 200) if tbl else None)
-        call = T.call(detector, e['args'], e['kwargs'])
-        want = call if rs == T.TRUE else T.call('drop_samples_df', (call,))
+        call = e['result']
+        dsd = model.find('drop_samples_df')
+        want = call if rs == T.TRUE else T.call('drop_samples_df', (), {dsd.params[0]: call})
         rep.compare(rule, inst + ':returned', site, res, want, ctx.unmodelled)
 
 
